@@ -1,7 +1,8 @@
 import GqlProofs.Schema.Closed
 /-
-  Where the loader can and cannot panic.  The only reachable panic is `isCovariant` reading a nil
-  entry of `PossibleTypes`; everything else is panic-free unconditionally.
+  The loader never panics.  The only panic site that was reachable is `isCovariant` reading a nil
+  entry of `PossibleTypes`; since the repair no nil entry is ever stored (`buildRelations_noNil`),
+  so every document is panic-free (`load_ne_panic`).
 -/
 namespace Gql.Load
 open Gql
@@ -176,7 +177,9 @@ theorem validateKindSpecific_ne_panic (st : LState) (d : Definition) : validateK
       intro v _
       apply andThen_ne_panic
       · split <;> simp
-      · intro _; exact validateDirectives_ne_panic _ _ _ _
+      intro _
+      apply andThen_ne_panic (validateName_ne_panic _ _)
+      intro _; exact validateDirectives_ne_panic _ _ _ _
   · split
     · simp
     · apply each_ne_panic
@@ -386,102 +389,20 @@ theorem foldExtensions_members {P : Name → Prop} {l : List Definition} {types 
           · exact hb _ hv0 m hm
           · exact hl ext (by simp) m hm
 
-theorem relateDef_noNil {types : List (Name × Definition)} {d : Definition}
-    (hd : ∀ t ∈ d.types, ptrOf types t ≠ none) {pi : Rel × Rel}
-    (h : ∀ p ∈ pi.1, True ∧ ∀ e ∈ p.2, e ≠ none) :
-    ∀ p ∈ (relateDef types d pi).1, True ∧ ∀ e ∈ p.2, e ≠ none := by
-  have hI : ∀ (pi : Rel × Rel), (∀ p ∈ pi.1, True ∧ ∀ e ∈ p.2, e ≠ none) →
-      (fun (q : Rel × Rel) => ∀ p ∈ q.1, True ∧ ∀ e ∈ p.2, e ≠ none)
-        (d.interfaces.foldl (fun (x : Rel × Rel) intf =>
-          match x with
-          | (p, i) => (pushKV intf (some d.name) p, pushKV d.name (ptrOf types intf) i)) pi) := by
-    intro pi hpi
-    apply foldl_inv (fun (q : Rel × Rel) => ∀ p ∈ q.1, True ∧ ∀ e ∈ p.2, e ≠ none)
-    · exact hpi
-    · intro s x _ hs
-      obtain ⟨p, i⟩ := s
-      exact pushKV_inv (P := fun _ => True) (Q := fun e => e ≠ none) hs trivial (by simp)
-  unfold relateDef
-  split
-  · apply foldl_inv (fun (q : Rel × Rel) => ∀ p ∈ q.1, True ∧ ∀ e ∈ p.2, e ≠ none)
-    · exact h
-    · intro s x hx hs
-      obtain ⟨p, i⟩ := s
-      exact pushKV_inv (P := fun _ => True) (Q := fun e => e ≠ none) hs trivial (hd x hx)
-  · have := hI pi h
-    revert this
-    generalize (d.interfaces.foldl _ pi) = q
-    obtain ⟨p, i⟩ := q
-    intro this
-    exact pushKV_inv (P := fun _ => True) (Q := fun e => e ≠ none) this trivial (by simp)
-  · have := hI pi h
-    revert this
-    generalize (d.interfaces.foldl _ pi) = q
-    obtain ⟨p, i⟩ := q
-    intro this
-    exact pushKV_inv (P := fun _ => True) (Q := fun e => e ≠ none) this trivial (by simp)
-  · exact hI pi h
-  · exact h
-  · exact h
-
-theorem buildRelations_noNil {types : List (Name × Definition)}
-    (h : ∀ p ∈ types, ∀ t ∈ p.2.types, (types.lookup t).isSome) :
-    ∀ p ∈ (buildRelations types).1, ∀ e ∈ p.2, e ≠ none := by
-  have : ∀ p ∈ (buildRelations types).1, True ∧ ∀ e ∈ p.2, e ≠ none := by
-    unfold buildRelations
-    apply foldl_inv (fun (q : Rel × Rel) => ∀ p ∈ q.1, True ∧ ∀ e ∈ p.2, e ≠ none)
-    · simp
-    · intro s d hd hs
-      simp only [List.mem_map] at hd
-      obtain ⟨p, hp, rfl⟩ := hd
-      apply relateDef_noNil _ hs
-      intro t ht
-      have := h p hp t ht
-      cases hl : types.lookup t with
-      | none => rw [hl] at this; simp at this
-      | some v => simp [ptrOf, hl]
-  exact fun p hp => (this p hp).2
-
-/-- if every union member is declared, no nil entry ever enters `PossibleTypes` -/
-theorem noNil_of_membersDeclared {sd : SchemaDoc} (hm : MembersDeclared sd) {st : LState}
-    (h : buildState sd = .ok st) : NoNilPossible st := by
+/-- **no nil entry ever enters `PossibleTypes`** (the repaired loader skips undeclared names) -/
+theorem noNil_of_buildState {sd : SchemaDoc} {st : LState} (h : buildState sd = .ok st) : NoNilPossible st := by
   have hrel := (buildState_inv h).2.2
-  unfold buildState at h
-  split at h
-  · simp at h
-  · rename_i t0 h0
-    split at h
-    · simp at h
-    · rename_i t1 h1
-      split at h
-      split at h
-      · simp at h
-      · simp only [Except.ok.injEq] at h
-        subst h
-        simp only at hrel
-        -- keys: every definition / extension name resolves
-        have hkeys : ∀ d ∈ sd.definitions ++ sd.extensions, (t1.lookup d.name).isSome := by
-          intro d hd
-          simp only [List.mem_append] at hd
-          rcases hd with hd | hd
-          · apply (foldExtensions_keys h1).1
-            rw [(declareTypes_mono h0).2 d hd]; rfl
-          · exact (foldExtensions_keys h1).2 d hd
-        -- members of merged definitions are members written in the document
-        have hmem : ∀ p ∈ t1, ∀ m ∈ p.2.types, (t1.lookup m).isSome := by
-          apply foldExtensions_members (P := fun m => (t1.lookup m).isSome) h1
-          · intro e he m hm'
-            obtain ⟨d', hd', hname⟩ := hm e (by simp [he]) m hm'
-            rw [← hname]; exact hkeys d' hd'
-          · intro p hp m hm'
-            rcases declareTypes_entries h0 p hp with hp | hp
-            · simp at hp
-            · obtain ⟨d', hd', hname⟩ := hm p.2 (by simp [hp]) m hm'
-              rw [← hname]; exact hkeys d' hd'
-        have := buildRelations_noNil hmem
-        intro p hp e he
-        have hfst : (buildRelations t1).1 = _ := (congrArg Prod.fst hrel).symm
-        rw [hfst] at this
-        exact this p hp e he
+  have hfst : st.possible = (buildRelations st.types).1 := congrArg Prod.fst hrel
+  intro p hp e he
+  rw [hfst] at hp
+  exact (buildRelations_noNil st.types).1 p hp e he
+
+/-- … in particular when every union member is declared (the former hypothesis of the partial theorem) -/
+theorem noNil_of_membersDeclared {sd : SchemaDoc} (_hm : MembersDeclared sd) {st : LState}
+    (h : buildState sd = .ok st) : NoNilPossible st := noNil_of_buildState h
+
+/-- **the loader never panics** -/
+theorem load_ne_panic (sd : SchemaDoc) : (load sd).isPanic = false :=
+  load_ne_panic_of_state (fun _ hst => noNil_of_buildState hst)
 
 end Gql.Load
